@@ -6,9 +6,15 @@ CLAIMED = {
  "C01": ("Coq theorems over an executable model of the dcat --plain pipeline (reader with MaxLineLength splitting -> one frame per line -> arbitrary transport re-chunking -> client splitter -> hidden-message rule): chunking invariance and fidelity to the insert-newline specification for all contents, all MaxLineLength, all chunkings under the guard the faithful model forces; the two protocol defects are proved as refutations of the full statement and recorded as known findings. Tied to the code by running the real dcat (serverless and through an in-process SSH server, plain/gz/zst) against the model.",
          "partial: gzip/zstd decoders, kernel pipes and the SSH transport are outside the model; log records in stdout are stripped before the model comparison (recorded finding)",
          "Coq proof (simulation lemma by induction, generic alphabet) + differential correspondence check"),
+ "C02": ("Coq LTS of a cat/grep session (commands arriving, readers pushing into the bounded lines queue, command counter, flush, .syn, Read taking from any non-empty queue; every scheduling choice and the consumer's pace are environment events). Theorem C02_partial: with the repaired flush and all commands received before the counter first returns to 0, on EVERY schedule every line of every file precedes the .syn, once and in order; the two ways the pinned code failed are proved as refutations with witness schedules. Tied to the code by driving real ServerHandler sessions with a paced consumer (trace inclusion + oracle) and black-box dcat into a throttled reader.",
+         "partial: Go scheduler/select/timers are environment events; liveness (session ends by itself, exit 0) is observed, not proved; the late-command race is a recorded finding classified through the verif hooks",
+         "Coq proof (invariant by induction over event lists, 9-clause record) + trace-inclusion correspondence with paced real sessions"),
  "C03": ("Coq model of filterWithLContext (state machine, branch for branch, with the running-number arithmetic) and a declarative grep specification; proved equal on the finite domain |file|<=8, before/after<=3, max<=4 (kernel-evaluated sweep lifted by forallb_forall), no-op pattern theorems; full unbounded statement kept visible as C03_full. Tied to the code through the reader API and the real dgrep CLI with RE2 verdicts as oracle.",
          "partial: unbounded induction for C03_full not yet proved; RE2 is an oracle",
          "Coq proof (finite sweep lifted by forallb_forall; structural lemmas) + differential correspondence check"),
+ "C10": ("Coq theorem C10_no_panic: for every byte stream, session state and behaviour of the library oracles, the model of Write -> handleCommand -> protocol/base64/option parsing -> dispatch -> arity checks never reaches a Go panic (every index/slice/nil access is a checked operation in the model). Tied to the code by a decode-level comparison (real ServerHandler up to the command callback) and by a crash oracle: generated payloads are fed to real sessions in child processes, a dead process is a violation.",
+         "partial: query parsing totality is C11's theorem; reader internals beyond the before-context bound, regexp and x/crypto are outside the model; resource exhaustion is out of scope",
+         "Coq proof (case analysis with checked indexing) + crash oracle in child processes + decode-level differential check"),
  "C12": ("Coq theorem C12_roundtrip: for every pattern, flag, context values in Z, output modes, blank-free file path and every iteration order of the option map, the server's decoding (Write -> handleCommand -> option parsing -> dispatch -> regex.Deserialize) of the bytes the client sends yields exactly the requested read command; base64/strconv enter as hypotheses. Model tied to the code by running the real client constructors + SendMessage and the real ServerHandler.Write on hostile patterns and option values, including dmap's option-less first command.",
          "encoding/base64, strconv, regexp.Compile, mapr.NewQuery are oracles (hypotheses in the theorem, per-case tables in the correspondence check)",
          "Coq proof (split/join algebra over bytes, induction over option lists) + differential correspondence check"),
@@ -18,7 +24,7 @@ CLAIMED = {
 }
 ALL = ["C%02d" % i for i in range(1, 19)]
 def main():
-    hooks_commits = []
+    hooks_commits = [l.split()[0] for l in subprocess.check_output(["git", "-C", "/repo", "log", "--format=%h %s"]).decode().splitlines() if l.split(" ", 1)[1].startswith("verif hooks")]
     m = {"version": 1, "setup_cmd": "./setup.sh",
          "hooks": {"guard": "verif",
                    "enable": "go build -tags verif -overlay build/overlay.json ./cmd/dverif (harness sources and add-only export files are injected from /verif/harness with -overlay; hook call sites committed in /repo are listed in MANIFEST.hooks.source_commits)",
